@@ -113,6 +113,7 @@ PROPS["C03"] = {"units": [
     rapid_unit("napt-in-package", "vnat", "^TestC03NAPT$", 10000, 16 * 200000, overlay="full"),
     rapid_unit("one-to-one", "vnat", "^TestC03OneToOne$", 5000, 16 * 50000, overlay="full"),
     rapid_unit("expiry-e2e", "vnete2e", "^TestC03ExpiryE2E$", 200, 16 * 600, overlay="plain", shrinktime="5s"),
+    rapid_unit("port-space", "vnat", "^TestC03PortSpace$", 16, 16 * 20, overlay="full"),
 ]}
 
 PROPS["C15"] = {"units": [
